@@ -549,6 +549,9 @@ func (s *stats) flush() {
 }
 
 func kindClass(k string) string {
+	if strings.HasPrefix(k, "length-vector") {
+		return "length-vector"
+	}
 	r := strings.NewReplacer("(", "-", ")", "", ">=", "-ge-", "+", "plus-", ",", "-")
 	return r.Replace(k)
 }
@@ -620,7 +623,11 @@ func evaluate(c *bcase, reader string, withVerify bool, st *stats) {
 		}
 	}
 	st.add(fmt.Sprintf("outcome/%s/n=%d/true=%d", rclass, c.n, nT), 1)
-	st.add("kind/"+rclass+"/"+c.kind, 1)
+	if strings.HasPrefix(c.kind, "length-vector") {
+		st.add("kind/"+rclass+"/length-vector", 1)
+	} else {
+		st.add("kind/"+rclass+"/"+c.kind, 1)
+	}
 }
 
 // ---------------------------------------------------------------- error shapes
@@ -968,6 +975,9 @@ func main() {
 	t0 = time.Now()
 	linearErrors()
 	phase["linear-errors"] = time.Since(t0).Seconds()
+	t0 = time.Now()
+	lengthVectors()
+	phase["length-vectors"] = time.Since(t0).Seconds()
 
 	t0 = time.Now()
 	var st stats
@@ -1309,5 +1319,48 @@ func linearErrors() {
 				fmt.Sprintf("BatchVerifyBLSSignaturesOneMessage on %d entries s_i + a_i*%s with a = %v: got (%v,%v), want %v (index i is valid iff a_i = 0)", j.n, bases[j.b].name, j.a, got, err, want), rp)
 		}
 		run.Distinct(fmt.Sprintf("linear/%d/%d/%v", j.n, j.b, j.a))
+	})
+}
+
+
+// lengthVectors: EVERY vector of entry lengths over {48, 0, 47, 49, 96} for n = 1..4 entries, the entries
+// cut one after the other from the stream s_0 || s_1 || ... of the valid signatures: wrong lengths that
+// compensate each other re-cut into the valid signatures if the list is flattened. Index i is true iff
+// entry i is exactly the valid signature of key i.
+func lengthVectors() {
+	lens := []int{48, 0, 47, 49, 96}
+	var cs []*bcase
+	for n := 1; n <= 4; n++ {
+		tot := 1
+		for i := 0; i < n; i++ {
+			tot *= len(lens)
+		}
+		var stream []byte
+		for i := 0; i < 2*n+1; i++ {
+			stream = append(stream, valid[i%n]...)
+		}
+		for v := 1; v < tot; v++ {
+			c := newCase(n, "", 0)
+			x, off := v, 0
+			var ls []int
+			for i := 0; i < n; i++ {
+				l := lens[x%len(lens)]
+				x /= len(lens)
+				c.sigs[i] = append([]byte{}, stream[off:off+l]...)
+				off += l
+				ls = append(ls, l)
+				if !bytes.Equal(c.sigs[i], valid[i]) {
+					c.S |= 1 << uint(i)
+				}
+			}
+			c.kind = fmt.Sprintf("length-vector%v", ls)
+			cs = append(cs, c)
+		}
+	}
+	run.Set("length_vector_cases", len(cs))
+	ev.Par(len(cs), func(i int) {
+		var st stats
+		evaluate(cs[i], "real", true, &st)
+		st.flush()
 	})
 }
